@@ -24,12 +24,12 @@ ASSUMPTIONS = [
 MANIFEST = {
     "category": "exploration",
     "technique": "property-based round-trip testing (Hypothesis-generated frames x write options) against an independent expected-table model",
-    "text": "Generated search over the product of 10 column kinds, 6 null patterns, boundary row counts and ~10 independent "
+    "text": "Generated search over the product of 11 column kinds, 6 null patterns, boundary row counts and ~10 independent "
             "write options; every successful write is read back and compared cell by cell (values, missingness, dtype, "
             "index, categorical labels/order/codes) with a table computed from the case alone. Finds counterexamples, "
             "does not establish absence.",
     "note": "Trusted: pandas/numpy building the input frame from the case; the expected-table model in vf/cases.py + "
-            "vf/model/table.py. A raising write is an allowed outcome. Under times='int96' a datetime column may come "
+            "vf/model/table.py. A write that refuses (ValueError, TypeError, NotImplementedError) is an allowed outcome; an AttributeError at write is reported as a crash. Under times='int96' a datetime column may come "
             "back as datetime64[ns] (INT96 is nanoseconds by definition); instants are compared.",
 }
 BUDGET = {"quick": {"shards": 8, "examples": 450, "wall": 100},
